@@ -141,6 +141,19 @@ void write_stats()
     o << "}\n}\n";
   }
   std::rename(tmp.c_str(), G.opts.out.c_str());
+  // distinctness across shard processes: the hashes of the non-trivial cases of every sampled
+  // section are written next to the stats so that the driver can count their union
+  for (Sec &s : G.sections)
+  {
+    if (!s.ran || s.kind == Kind::exhaustive || s.seen.empty()) continue;
+    std::string const hp = G.opts.out + "." + s.name + ".h64";
+    if (FILE *f = std::fopen(hp.c_str(), "wb"))
+    {
+      std::vector<u64> v(s.seen.begin(), s.seen.end());
+      std::fwrite(v.data(), sizeof(u64), v.size(), f);
+      std::fclose(f);
+    }
+  }
 }
 
 void abnormal_dump(char const *kind)
